@@ -542,7 +542,11 @@ func deltaText(commit string, patches []string) string {
 var goodKeyPatch = patchJ(q("add-public-keys"), "publicKeys", arr(keyEntry(q("kg"), q("JsonWebKey2020"), `["authentication"]`, materialVariants[0], "")))
 var goodSvcPatch = patchJ(q("add-services"), "services", arr(svcEntry(q("sg"), q("t"), q("https://g.example"), "")))
 var goodIetfPatch = patchJ(q("ietf-json-patch"), "patches", arr(obj("op", q("add"), "path", q("/ok"), "value", "1")))
-var goodPatches = []string{goodKeyPatch, goodSvcPatch, goodIetfPatch, patchJ(q("remove-public-keys"), "ids", arr(q("k1"))), patchJ(q("add-also-known-as"), "uris", arr(q("https://a.example")))}
+var goodReplacePatch = patchJ(q("replace"), "document", obj("publicKeys", arr(keyEntry(q("kr"), q("Ed25519VerificationKey2018"), "", materialVariants[1], "")),
+	"services", arr(svcEntry(q("sr"), q("LinkedDomains"), arr(q("https://r.example"), q("https://r2.example/p")), "1"))))
+var goodPatches = []string{goodKeyPatch, goodSvcPatch, goodIetfPatch, patchJ(q("remove-public-keys"), "ids", arr(q("k1"))), patchJ(q("add-also-known-as"), "uris", arr(q("https://a.example"))),
+	goodReplacePatch, patchJ(q("replace"), "document", obj("services", arr(svcEntry(q("s9"), q("t"), q("did:example:9"), "")))), patchJ(q("replace"), "document", `{}`),
+	patchJ(q("replace"), "document", obj("publicKeys", "null", "services", "[]")), patchJ(q("remove-services"), "ids", arr(q("s1"), q("s2"))), patchJ(q("remove-also-known-as"), "uris", arr(q("did:example:1"), q("x")))}
 
 func uEscape(s string, all bool) string {
 	var sb strings.Builder
@@ -665,7 +669,12 @@ func respell(t string) (string, string) {
 		if len(ss) > 0 {
 			n := ss[rng.Intn(len(ss))]
 			body := n.raw[1 : len(n.raw)-1]
-			n.raw = `"` + body + pick([]string{"\xff", `\ud800`, "\xc0\x80", `\udc00`, "\xe2\x82", `\u0000`, `😀`, "é"}) + `"`
+			taint := pick([]string{"\xff", `\ud800`, "\xc0\x80", `\udc00`, "\xe2\x82", `\u0000`, `😀`, "é", "<", `\u2028`, `\/`, " "})
+			if rng.Intn(2) == 0 { // in front: a JSON pointer no longer starts with '/', an id no longer with its first character
+				n.raw = `"` + taint + body + `"`
+				return root.text(), "string-tainted-front"
+			}
+			n.raw = `"` + body + taint + `"`
 			return root.text(), "string-tainted"
 		}
 	case 7: // number spellings
@@ -795,19 +804,41 @@ func main() {
 	// numbers of cases per class
 	nDID, nPool, nMulti, nRespell, nShape, nBare, nMut, nJSONMut := 4, 280, 100, 200, 100, 900, 160, 60
 	if *tier == "thorough" {
-		nDID, nPool, nMulti, nRespell, nShape, nBare, nMut, nJSONMut = 12, 3600, 1200, 2400, 1100, 9000, 2000, 500
+		nDID, nPool, nMulti, nRespell, nShape, nBare, nMut, nJSONMut = 12, 3600, 1200, 2400, 1100, 9600, 2000, 500
 	}
 	if *per > 0 {
 		perFile = *per
 	}
 	bk := newBank(nDID)
 	sys := genPatches()
+	// the systematic pool by action (it is dominated by add-public-keys / add-services variants): drawing the action
+	// first gives every validator its share
+	byAction := map[string][]string{}
+	var actionNames []string
+	for _, t := range sys {
+		var m map[string]interface{}
+		_ = json.Unmarshal([]byte(t), &m)
+		a, _ := m["action"].(string)
+		if len(a) > 24 || a == "" {
+			a = "(other)"
+		}
+		if byAction[a] == nil {
+			actionNames = append(actionNames, a)
+		}
+		byAction[a] = append(byAction[a], t)
+	}
+	sort.Strings(actionNames)
+	for _, a := range actionNames {
+		count("pool", fmt.Sprintf("systematic:%s:%d", a, len(byAction[a])))
+	}
 	pool := func() string { // the systematic pool is mostly single violations; the random patches are mostly valid
 		switch r := rng.Intn(10); {
 		case r < 4:
 			return genRandomPatch()
 		case r < 6:
 			return pick(goodPatches)
+		case r < 8:
+			return pick(byAction[pick(actionNames)])
 		}
 		return sys[rng.Intn(len(sys))]
 	}
@@ -833,11 +864,11 @@ func main() {
 		addCase("signed:update:example-refused", []byte(tree.text()))
 		refusedHex = hex.EncodeToString([]byte(tree.text()))
 	}
-	// 1. one pool patch inside a real signed request of each type (thorough: the systematic pool is walked in order)
+	// 1. one pool patch inside a real signed request of each type (thorough: every second one strides through the systematic pool)
 	for i := 0; i < nPool; i++ {
 		t := pool()
-		if *tier == "thorough" && i < len(sys) {
-			t = sys[i]
+		if *tier == "thorough" && i%2 == 0 { // a stride through the whole systematic pool
+			t = sys[(i*7919)%len(sys)]
 		}
 		ty := reqTypes[i%3]
 		b := bk.withPatches(ty, []string{t})
